@@ -27,7 +27,7 @@ SHRINK_CAP = 600
 SHRINK_WALL_S = 90
 
 TIERS = {
-    "quick": {"L1": 8000, "L2": 5000, "L3": 2000},
+    "quick": {"L1": 8000, "L2": 5000, "L3": 4000},
     "thorough": {"L1": 700000, "L2": 400000, "L3": 120000},
 }
 SINK_KINDS = ("bytesio", "simsink-int", "simsink-none", "bufferedwriter", "streamwriter")
@@ -642,7 +642,7 @@ def run_l2(run_seed: int, cfg: dict) -> L2Result:
 def gen_l3_cfg(rng) -> dict:
     n = rng.choice((1, 2, 4, 8))
     cfg = {"requests": n, "bufsize_client": rng.choice((1, 16, 8192)), "bufsize_broker": rng.choice((1, 16, 8192)),
-           "sched_seed": rng.getrandbits(48), "crash": None}
+           "sched_seed": rng.getrandbits(48), "crash": None, "pipeline": rng.choice((1, 1, 2, 3))}
     if rng.random() < 0.4:
         # the client process dies after sending a fraction of frame j (crash point inside a live stream)
         cfg["crash"] = [rng.randrange(n), rng.random()]
@@ -845,6 +845,8 @@ def run_l3(run_seed: int, cfg: dict, forced: list | None = None) -> tuple[str | 
     def client():
         r = io.BufferedReader(RawR(s2c, "client"), buffer_size=max(16, cfg["bufsize_client"]))
         w = io.BufferedWriter(RawW(c2s, "client"), buffer_size=cfg["bufsize_client"])
+        depth = cfg.get("pipeline", 1)
+        pending: list = []
         for k_req, (req_cls, hdr, req, resp_cls, rh, resp) in enumerate(plan_):
             if crash is not None and crash[0] == k_req:
                 tmp = io.BytesIO()
@@ -858,17 +860,22 @@ def run_l3(run_seed: int, cfg: dict, forced: list | None = None) -> tuple[str | 
                 return
             sent_req.append((hdr, req))
             frame(w, req_cls.__header_schema__, hdr, req_cls, req)
-            # kio reads straight from the live stream (no intermediate BytesIO)
-            n = read_int32(r)
-            h2 = entity_reader(resp_cls.__header_schema__)(r)
-            p2 = entity_reader(resp_cls)(r)
-            if (h2, p2) != (rh, resp) or type(p2) is not resp_cls:
-                viol.append("L3:response-differs-from-sent")
-            tmp = io.BytesIO()
-            entity_writer(resp_cls.__header_schema__)(tmp, rh)
-            entity_writer(resp_cls)(tmp, resp)
-            if n != tmp.tell():
-                viol.append("L3:size-prefix-differs")
+            pending.append((resp_cls, rh, resp))
+            if len(pending) < depth and k_req != len(plan_) - 1:
+                continue  # pipelining: the next request is encoded while the broker encodes its response
+            for resp_cls, rh, resp in pending:
+                # kio reads straight from the live stream (no intermediate BytesIO)
+                n = read_int32(r)
+                h2 = entity_reader(resp_cls.__header_schema__)(r)
+                p2 = entity_reader(resp_cls)(r)
+                if (h2, p2) != (rh, resp) or type(p2) is not resp_cls:
+                    viol.append("L3:response-differs-from-sent")
+                tmp = io.BytesIO()
+                entity_writer(resp_cls.__header_schema__)(tmp, rh)
+                entity_writer(resp_cls)(tmp, resp)
+                if n != tmp.tell():
+                    viol.append("L3:size-prefix-differs")
+            pending.clear()
         w.close()
 
     def broker():
